@@ -11,7 +11,7 @@
 import json, os, re, shutil, subprocess, sys
 ENV = dict(os.environ, GOFLAGS="-mod=mod", GOPROXY="off", GOSUMDB="off", GOTOOLCHAIN="local")
 def sh(cmd, cwd=None, timeout=1800):
-    p = subprocess.run(cmd, cwd=cwd, env=ENV, capture_output=True, text=True, timeout=timeout, shell=isinstance(cmd, str))
+    p = subprocess.run(cmd, cwd=cwd, env=ENV, capture_output=True, text=True, errors="replace", timeout=timeout, shell=isinstance(cmd, str))
     return p.returncode, p.stdout + p.stderr
 def main():
     src, name, checks = sys.argv[1], sys.argv[2], sys.argv[3:]
